@@ -34,6 +34,8 @@ def _gen(rng):
         name, prog = 'tmpl:pending_return', gen.tmpl_pending_return(rng)
     elif k < 0.8:
         name, prog = 'tmpl:label_table', gen.tmpl_label_table(rng)
+    elif k < 0.86:
+        name, prog = 'tmpl:self_return', gen.tmpl_self_return(rng)
     else:
         name, prog = gen.gen_case(rng, allow_input=True)
     if rng.random() < 0.35 and not name.startswith('tmpl:dispatch'):
@@ -199,5 +201,7 @@ def main(tier, seed):
                'partial_prefix': (featc.get('partial_prefix', 0), 25),
                'prefix_ends_with_area_command': (featc.get('prefix_ends_with_area_command', 0), 5),
                'pending_heart_target': (featc.get('pending_heart_target', 0), 2),
-               'jump_into_prefix_after_read': (featc.get('jump_into_prefix_after_read', 0), 5)}
+               'jump_into_prefix_after_read': (featc.get('jump_into_prefix_after_read', 0), 5),
+               'heart_return_to_self': (featc.get('heart_return_to_self', 0), 3),
+               'nan_at_handover': (featc.get('nan_at_handover', 0), 3)}
     return rep.finish(cov, assumptions, t0, minimum)
